@@ -65,6 +65,15 @@ class UnreferencedFootnotesDetector(Transform):
                 )
 
 
+def _footnote_setting(document: nodes.document, name: str) -> bool:
+    """Return a footnote setting of the document:
+    the value the renderer recorded for it, else the global one."""
+    try:
+        return getattr(document, name)
+    except AttributeError:
+        return getattr(document.settings, name)
+
+
 class SortFootnotes(Transform):
     """Sort auto-numbered, labelled footnotes by the order they are referenced.
 
@@ -77,7 +86,7 @@ class SortFootnotes(Transform):
 
     def apply(self, **kwargs: t.Any) -> None:
         """Apply the transform."""
-        if not self.document.settings.myst_footnote_sort:
+        if not _footnote_setting(self.document, "myst_footnote_sort"):
             return
 
         ref_order: list[str] = [
@@ -113,7 +122,7 @@ class CollectFootnotes(Transform):
 
     def apply(self, **kwargs: t.Any) -> None:
         """Apply the transform."""
-        if not self.document.settings.myst_footnote_sort:
+        if not _footnote_setting(self.document, "myst_footnote_sort"):
             return
 
         footnotes: list[tuple[str, nodes.footnote]] = []
@@ -127,7 +136,7 @@ class CollectFootnotes(Transform):
 
         if (
             footnotes
-            and self.document.settings.myst_footnote_transition
+            and _footnote_setting(self.document, "myst_footnote_transition")
             # avoid warning: Document or section may not begin with a transition
             and not all(isinstance(c, nodes.footnote) for c in self.document.children)
             # avoid error: adjacent transitions are not allowed
